@@ -85,8 +85,7 @@ def run(ctx, replay, prop):
     # 3. replay on real peers
     sp = ctx.write_scenarios(scen)
     tp = os.path.join(ctx.work, "trace.ndjson")
-    r = ctx.dv(["world", sp, tp], timeout=3000)
-    ctx.cov["steps_executed"] += r.get("events", 0)
+    ctx.dv_world(sp, tp)
     # 4. validate
     cfg = "CONSTANTS\n  KNOWN = {%s}\n  Property = \"%s\"\nSPECIFICATION TSpec\nINVARIANT Monitors\nPOSTCONDITION Reached\nCHECK_DEADLOCK FALSE\n" % (
         ", ".join('"%s"' % k for k in known_ids), prop)
